@@ -77,8 +77,10 @@ Definition same_handle (fs : fsys) (a b : nat) : bool :=
   match resolve fs a, resolve fs b with Some x, Some y => Nat.eqb x y | _, _ => false end.
 Definition dev_of (fs : fsys) (i : nat) : option N := option_map (fun t => i_dev (iget fs t)) (resolve fs i).
 
-(* the matcher stack: directory path and the inode it leads to, nearest first *)
+(* the matcher stack: directory path and the inode Handle::from_path(path) leads to, nearest first *)
 Definition igstack := list (bytes * nat).
+Definition hino (fs : fsys) (e : dent) : nat :=
+  match resolve fs (de_ino e) with Some t => t | None => de_ino e end.
 
 Inductive out :=
 | OEntry (e : dent)
@@ -113,17 +115,19 @@ Section Walkers.
   Definition check_symlink_loop (ig : igstack) (child_ino : nat) : bool :=   (* true = loop *)
     existsb (fun a => same_handle fs child_ino (snd a)) ig.
 
-  Definition generate_work (ig : igstack) (dir : bytes) (depth : nat) (ent : bytes * nat) : gen_result :=
+  (* the first half of generate_work: build the entry, follow a symlink, detect a loop *)
+  Definition gw_follow (ig : igstack) (dir : bytes) (depth : nat) (ent : bytes * nat) : out + dent :=
     let e0 := from_entry fs dir depth ent in
-    let followed :=
-      if follow_links && de_is_symlink e0 then
-        match from_path fs (de_path e0) depth (de_ino e0) true with
-        | None => inl (OIoErr (de_path e0))
-        | Some e1 =>
-          if de_is_dir e1 && check_symlink_loop ig (de_ino e1) then inl (OLoop (de_path e1)) else inr e1
-        end
-      else inr e0 in
-    match followed with
+    if follow_links && de_is_symlink e0 then
+      match from_path fs (de_path e0) depth (de_ino e0) true with
+      | None => inl (OIoErr (de_path e0))
+      | Some e1 =>
+        if de_is_dir e1 && check_symlink_loop ig (de_ino e1) then inl (OLoop (de_path e1)) else inr e1
+      end
+    else inr e0.
+
+  Definition generate_work (ig : igstack) (dir : bytes) (depth : nat) (ent : bytes * nat) : gen_result :=
+    match gw_follow ig dir depth ent with
     | inl o => GOut o
     | inr e => if par_skip ig e then GNothing else GWork e
     end.
@@ -202,6 +206,24 @@ Section Walkers.
   Definition wd_skip_current_dir (s : wd) : wd :=
     match wd_stack s with [] => s | _ => wd_pop s end.
 
+  (* handle_entry, second half: descend into a directory (push) or not *)
+  Definition wd_enter (s : wd) (e : dent) : wres * wd :=
+    let is_normal_dir := negb (de_is_symlink e) && de_is_dir e in
+    if is_normal_dir then
+      if same_file_system && Nat.ltb 0 (de_depth e) then
+        match dev_of fs (de_ino e), wd_root_dev s with
+        | Some d, Some rd => if (d =? rd)%N then (WOk e, wd_push s e) else (WOk e, s)
+        | _, _ => (WOk e, wd_push s e)
+        end
+      else (WOk e, wd_push s e)
+    else if Nat.eqb (de_depth e) 0 && de_is_symlink e then
+      (* a root symlink is followed even without follow_links; the entry stays a symlink *)
+      match resolve fs (de_ino e) with
+      | None => (WIo (de_path e) 0, s)
+      | Some t => if ftype_eqb (lstat_type fs t) TyDir then (WOk e, wd_push s e) else (WOk e, s)
+      end
+    else (WOk e, s).
+
   (* handle_entry; depth = self.depth = stack length when the entry was read *)
   Definition wd_handle_entry (s : wd) (e0 : dent) : wres * wd :=
     let followed :=
@@ -215,59 +237,56 @@ Section Walkers.
       else inr e0 in
     match followed with
     | inl err => (err, s)
-    | inr e =>
-      let is_normal_dir := negb (de_is_symlink e) && de_is_dir e in
-      if is_normal_dir then
-        if same_file_system && Nat.ltb 0 (de_depth e) then
-          match dev_of fs (de_ino e), wd_root_dev s with
-          | Some d, Some rd => if (d =? rd)%N then (WOk e, wd_push s e) else (WOk e, s)
-          | _, _ => (WOk e, wd_push s e)
-          end
-        else (WOk e, wd_push s e)
-      else if Nat.eqb (de_depth e) 0 && de_is_symlink e then
-        (* a root symlink is followed even without follow_links; the entry stays a symlink *)
-        match resolve fs (de_ino e) with
-        | None => (WIo (de_path e) 0, s)
-        | Some t => if ftype_eqb (lstat_type fs t) TyDir then (WOk e, wd_push s e) else (WOk e, s)
-        end
-      else (WOk e, s)
+    | inr e => wd_enter s e
     end.
 
   Definition clear_start (s : wd) (rd : option N) : wd :=
     {| wd_start := None; wd_follow := wd_follow s; wd_stack := wd_stack s; wd_anc := wd_anc s; wd_root_dev := rd |}.
 
-  Fixpoint wd_next (fuel : nat) (s : wd) : option (option wres * wd) :=
-    match fuel with
-    | 0 => None
-    | S fuel' =>
-      match wd_start s with
-      | Some r =>
-        let rd := if same_file_system then Some (dev_of fs (snd r)) else None in
-        match rd with
-        | Some None => Some (Some (WIo (fst r) 0), clear_start s None)
-        | _ =>
-          let s1 := clear_start s (match rd with Some d => d | None => None end) in
-          match from_path fs (fst r) 0 (snd r) false with
-          | None => Some (Some (WIo (fst r) 0), s1)
-          | Some e => let (res, s2) := wd_handle_entry s1 e in Some (Some res, s2)
-          end
+  (* the `while !self.stack_list.is_empty()` loop of IntoIter::next up to the point where an entry is
+     read: frames that are exhausted, or deeper than max_depth, are popped (with their ancestor) *)
+  Inductive adv :=
+  | AdvDone (anc : list nat)
+  | AdvEnt (ent : bytes * nat) (dir : bytes) (depth : nat) (stack' : list frame) (anc : list nat).
+
+  Definition exceeds_max (depth : nat) : bool :=
+    match max_depth with Some m => Nat.ltb m depth | None => false end.
+
+  Fixpoint wd_advance (follow : bool) (stack : list frame) (anc : list nat) : adv :=
+    match stack with
+    | [] => AdvDone anc
+    | fr :: below =>
+      let depth := length stack in
+      let anc' := if follow then tl anc else anc in
+      if exceeds_max depth then wd_advance follow below anc' else
+      match fr_rest fr with
+      | [] => wd_advance follow below anc'
+      | ent :: rest => AdvEnt ent (fr_path fr) depth ({| fr_path := fr_path fr; fr_rest := rest |} :: below) anc
+      end
+    end.
+
+  Definition wd_next (s : wd) : option wres * wd :=
+    match wd_start s with
+    | Some r =>
+      let rd := if same_file_system then Some (dev_of fs (snd r)) else None in
+      match rd with
+      | Some None => (Some (WIo (fst r) 0), clear_start s None)
+      | _ =>
+        let s1 := clear_start s (match rd with Some d => d | None => None end) in
+        match from_path fs (fst r) 0 (snd r) false with
+        | None => (Some (WIo (fst r) 0), s1)
+        | Some e => let (res, s2) := wd_handle_entry s1 e in (Some res, s2)
         end
-      | None =>
-        match wd_stack s with
-        | [] => Some (None, s)
-        | fr :: below =>
-          let depth := length (wd_stack s) in
-          if match max_depth with Some m => Nat.ltb m depth | None => false end then wd_next fuel' (wd_pop s) else
-          match fr_rest fr with
-          | [] => wd_next fuel' (wd_pop s)
-          | ent :: rest =>
-            let s1 := {| wd_start := None; wd_follow := wd_follow s;
-                         wd_stack := {| fr_path := fr_path fr; fr_rest := rest |} :: below;
-                         wd_anc := wd_anc s; wd_root_dev := wd_root_dev s |} in
-            let (res, s2) := wd_handle_entry s1 (from_entry fs (fr_path fr) depth ent) in
-            Some (Some res, s2)
-          end
-        end
+      end
+    | None =>
+      match wd_advance (wd_follow s) (wd_stack s) (wd_anc s) with
+      | AdvDone anc =>
+        (None, {| wd_start := None; wd_follow := wd_follow s; wd_stack := []; wd_anc := anc; wd_root_dev := wd_root_dev s |})
+      | AdvEnt ent dir depth stack' anc =>
+        let s1 := {| wd_start := None; wd_follow := wd_follow s; wd_stack := stack'; wd_anc := anc;
+                     wd_root_dev := wd_root_dev s |} in
+        let (res, s2) := wd_handle_entry s1 (from_entry fs dir depth ent) in
+        (Some res, s2)
       end
     end.
 
@@ -284,28 +303,24 @@ Section Walkers.
     else if negb (de_is_symlink e) || Nat.ltb 0 (de_depth e) then false
     else match resolve fs (de_ino e) with Some t => ftype_eqb (lstat_type fs t) TyDir | None => false end.
 
-  Definition wei_next (fuel : nat) (s : wei) : option (option wevent * wei) :=
-    let got :=
+  Definition wei_next (s : wei) : option wevent * wei :=
+    let (dentr, it') :=
       match we_next s with
-      | Some r => Some (Some r, we_it s)
-      | None => wd_next fuel (we_it s)
+      | Some r => (Some r, we_it s)
+      | None => wd_next (we_it s)
       end in
-    match got with
-    | None => None
-    | Some (dentr, it') =>
-      let depth := match dentr with None => 0 | Some r => wres_depth r end in
-      if Nat.ltb depth (we_depth s) then
-        Some (Some EvExit, {| we_depth := we_depth s - 1; we_it := it'; we_next := dentr |})
-      else
-        match dentr with
-        | None => Some (None, {| we_depth := depth; we_it := it'; we_next := None |})
-        | Some (WOk e) =>
-          if walkdir_is_dir e
-          then Some (Some (EvDir e), {| we_depth := S depth; we_it := it'; we_next := None |})
-          else Some (Some (EvFile e), {| we_depth := depth; we_it := it'; we_next := None |})
-        | Some r => Some (Some (EvErr r), {| we_depth := depth; we_it := it'; we_next := None |})
-        end
-    end.
+    let depth := match dentr with None => 0 | Some r => wres_depth r end in
+    if Nat.ltb depth (we_depth s) then
+      (Some EvExit, {| we_depth := we_depth s - 1; we_it := it'; we_next := dentr |})
+    else
+      match dentr with
+      | None => (None, {| we_depth := depth; we_it := it'; we_next := None |})
+      | Some (WOk e) =>
+        if walkdir_is_dir e
+        then (Some (EvDir e), {| we_depth := S depth; we_it := it'; we_next := None |})
+        else (Some (EvFile e), {| we_depth := depth; we_it := it'; we_next := None |})
+      | Some r => (Some (EvErr r), {| we_depth := depth; we_it := it'; we_next := None |})
+      end.
 
   (* ------------------------------------------------------------ Walk *)
   Record walk := {
@@ -349,56 +364,61 @@ Section Walkers.
   Definition out_of_wres (r : wres) : out :=
     match r with WOk e => OEntry e | WLoop c _ => OLoop c | WIo p _ => OIoErr p end.
 
-  (* Walk::next: None = out of fuel; Some (None, _) = the iterator is finished.
-     [d5], [d15]: true = the tree as repaired; false = the pinned text *)
+  (* one iteration of the `loop` in Walk::next.  [d5], [d15]: true = the tree as repaired; false = the
+     pinned text *)
+  Inductive wstep := WEnd | WOut (o : out) (w : walk) | WSilent (w : walk).
+
+  Definition walk_step (d5 d15 : bool) (w : walk) : wstep :=
+    let ev := match wk_it w with Some it => wei_next it | None => (None, new_wei ([], 0)) end in
+    match ev with
+    | (None, _) =>
+      match wk_its w with
+      | [] => WEnd
+      | r :: rest =>
+        WSilent {| wk_its := rest; wk_it := Some (new_wei r); wk_ig := [];
+                   wk_root_dev := if same_file_system then dev_of fs (snd r) else None |}
+      end
+    | (Some ev, it') =>
+      let w1 := {| wk_its := wk_its w; wk_it := Some it'; wk_ig := wk_ig w; wk_root_dev := wk_root_dev w |} in
+      match ev with
+      | EvErr r => WOut (out_of_wres r) w1
+      | EvExit =>
+        WSilent {| wk_its := wk_its w; wk_it := Some it'; wk_ig := tl (wk_ig w); wk_root_dev := wk_root_dev w |}
+      | EvDir e =>
+        let pushed := (de_path e, hino fs e) :: wk_ig w in
+        if skip_entry_with d5 (wk_ig w) e then
+          let it'' := if negb d15 || is_descended w e
+                      then {| we_depth := we_depth it'; we_it := wd_skip_current_dir (we_it it'); we_next := we_next it' |}
+                      else it' in
+          WSilent {| wk_its := wk_its w; wk_it := Some it''; wk_ig := pushed; wk_root_dev := wk_root_dev w |}
+        else
+          WOut (OEntry e) {| wk_its := wk_its w; wk_it := Some it'; wk_ig := pushed; wk_root_dev := wk_root_dev w |}
+      | EvFile e =>
+        if skip_entry_with d5 (wk_ig w) e then WSilent w1 else WOut (OEntry e) w1
+      end
+    end.
+
+  (* Walk::next: None = out of fuel; Some (None, _) = the iterator is finished *)
   Fixpoint walk_next (d5 d15 : bool) (fuel : nat) (w : walk) : option (option out * walk) :=
     match fuel with
     | 0 => None
     | S fuel' =>
-      let ev := match wk_it w with Some it => wei_next fuel it | None => Some (None, new_wei ([], 0)) end in
-      match ev with
-      | None => None
-      | Some (None, _) =>
-        match wk_its w with
-        | [] => Some (None, w)
-        | r :: rest =>
-          walk_next d5 d15 fuel'
-            {| wk_its := rest; wk_it := Some (new_wei r); wk_ig := [];
-               wk_root_dev := if same_file_system then dev_of fs (snd r) else None |}
-        end
-      | Some (Some ev, it') =>
-        let w1 := {| wk_its := wk_its w; wk_it := Some it'; wk_ig := wk_ig w; wk_root_dev := wk_root_dev w |} in
-        match ev with
-        | EvErr r => Some (Some (out_of_wres r), w1)
-        | EvExit =>
-          walk_next d5 d15 fuel'
-            {| wk_its := wk_its w; wk_it := Some it'; wk_ig := tl (wk_ig w); wk_root_dev := wk_root_dev w |}
-        | EvDir e =>
-          let pushed := (de_path e, de_ino e) :: wk_ig w in
-          if skip_entry_with d5 (wk_ig w) e then
-            let it'' := if negb d15 || is_descended w e
-                        then {| we_depth := we_depth it'; we_it := wd_skip_current_dir (we_it it'); we_next := we_next it' |}
-                        else it' in
-            walk_next d5 d15 fuel'
-              {| wk_its := wk_its w; wk_it := Some it''; wk_ig := pushed; wk_root_dev := wk_root_dev w |}
-          else
-            Some (Some (OEntry e),
-                  {| wk_its := wk_its w; wk_it := Some it'; wk_ig := pushed; wk_root_dev := wk_root_dev w |})
-        | EvFile e =>
-          if skip_entry_with d5 (wk_ig w) e then walk_next d5 d15 fuel' w1
-          else Some (Some (OEntry e), w1)
-        end
+      match walk_step d5 d15 w with
+      | WEnd => Some (None, w)
+      | WOut o w' => Some (Some o, w')
+      | WSilent w' => walk_next d5 d15 fuel' w'
       end
     end.
 
+  (* `for entry in walk { .. }`: every loop iteration costs one unit of fuel *)
   Fixpoint walk_all (d5 d15 : bool) (fuel : nat) (w : walk) (acc : list out) : option (list out) :=
     match fuel with
     | 0 => None
     | S fuel' =>
-      match walk_next d5 d15 fuel w with
-      | None => None
-      | Some (None, _) => Some acc
-      | Some (Some o, w') => walk_all d5 d15 fuel' w' (acc ++ [o])
+      match walk_step d5 d15 w with
+      | WEnd => Some acc
+      | WOut o w' => walk_all d5 d15 fuel' w' (acc ++ [o])
+      | WSilent w' => walk_all d5 d15 fuel' w' acc
       end
     end.
 
